@@ -121,6 +121,9 @@ pub fn uncontrolled_hook(ev: Ev) {
             if l == "bg:merge:go" || l == "bg:sync:tick" {
                 iohook::vtime_busy(1);
             }
+            if l == "bg:merge:done" || l == "bg:sync:done" {
+                iohook::vtime_seen();
+            }
         }
         Ev::Release(r, _) => {
             if r == bitcask::verif::WRITER && std::thread::current().name().map_or(false, |n| n.starts_with("tokio-runtime-w")) {
